@@ -67,6 +67,13 @@ theorem C20_elementwise_loop (t : Nat) (e : Expr) (n : Nat) (env : Env) :
     ∧ (loopN (.fassign t e) 1 n env).scal = env.scal := by
   rw [loop_fassign]; exact ⟨fun _ _ => rfl, rfl⟩
 
+/-- OpenMP-parallelised element-wise loops: executing the statement once per DoF of `1..n` in *any* order
+(any interleaving of whole iterations across threads) gives the result of the sequential loop. -/
+theorem C20_elementwise_order_irrelevant (t : Nat) (e : Expr) (n : Nat) (l : List Nat)
+    (hp : l.Perm (visits 1 n)) (env : Env) :
+    l.foldl (fun en df => exec (.fassign t e) df en) env = loopN (.fassign t e) 1 n env :=
+  loop_fassign_any_order t e n l hp env
+
 /-- Reductions, every upper bound `n`: zero-initialisation followed by the accumulation loop leaves
 `Σ_{df ∈ 1..n} e(df)` in the reduction variable whatever it held before, and changes nothing else. -/
 theorem C20_reduction_is_sum (t : Nat) (z rhs e : Expr) (hz : ∀ env, eval env 0 z = 0)
@@ -123,6 +130,7 @@ example : usesScal 0 (.mul (.fld 1) (.fld 2)) = false := by decide
 example : docBound false true false = .undf ∧ docBound true false false = .owned
     ∧ docBound true true false = .annexed ∧ docBound true true true = .owned := by decide
 example : visits 1 4 = [1, 2, 3, 4] := by decide
+example : [3, 1, 4, 2].Perm (visits 1 4) := by decide
 example : dofs 3 = [1, 2, 3] := by decide
 
 /-- a *wrong* lowering is refuted by the model: `X_minus_Y` with swapped operands differs from the formula -/
